@@ -228,6 +228,19 @@ def run(ctx):
                 if n.get("k") == "ref" and n.get("thread_local"):
                     bad += 1
                     ctx.bad("R05.8", f, "shared-buffer:" + n["decl"], "%s uses a thread_local object shared by all statements of the thread" % short(f.qual), (f, e.get("ln")))
+    from .common import fx, static_locals
+    g = fx(ctx, "asynchronous")
+    fired = False
+    if g is not None:
+        for bid, i, e in g.all_elems():
+            if e.get("expr") is not None:
+                for n in walk(e["expr"]):
+                    nm = (n.get("name") or n.get("type") or "")
+                    if n.get("k") in ("call", "construct") and re.search(r"std::(thread|async|future|promise|packaged_task|condition_variable|queue|deque)\b", nm):
+                        fired = True
+    ctx.fixture("R05.8", "asynchronous", fired, True, "thread/async recognised")
+    g = fx(ctx, "shared_buffer")
+    ctx.fixture("R05.8", "shared_buffer", g is not None and bool(static_locals(g)), True, "static/thread_local buffer recognised")
     ctx.need("R05.8", "functions scanned", scanned, 15)
     if not bad:
         ctx.ok("R05.8", "nitro::log", "synchronous-private-state", "%d functions scanned" % scanned, "-")
